@@ -36,11 +36,16 @@ def exhaustive_small():
     return out
 
 
-def build_net(edges):
+def edge_label(eid, ids):
+    # edge identifiers are arbitrary labels: integers, strings, the empty string (a blank id field in a file)
+    return eid if ids == 'int' else ('' if (ids == 'blank' and eid == 0) else 'e%d' % eid)
+
+
+def build_net(edges, ids='int'):
     from tracklib.core import ENUCoords, Obs, Track, Network, Node, Edge
     net = Network()
     for (eid, s, t, o, w) in edges:
-        e = Edge(eid, Track([Obs(ENUCoords(s, 0, 0)), Obs(ENUCoords(t, 0, 0))]))
+        e = Edge(edge_label(eid, ids), Track([Obs(ENUCoords(s, 0, 0)), Obs(ENUCoords(t, 0, 0))]))
         e.orientation = o
         e.weight = w
         net.addEdge(e, Node(s, ENUCoords(s, 0, 0)), Node(t, ENUCoords(t, 0, 0)))
@@ -84,7 +89,7 @@ def gen_dist(rng, n, tier):
     for k in range(n):
         g = gen_graph(rng, small=(k % 3 == 0))
         used = sorted({e[1] for e in g} | {e[2] for e in g})
-        cases.append({'edges': g, 'src': rng.choice(used), 'shared': rng.random() < 0.3, 'pre': rand_pre(rng)})
+        cases.append({'edges': g, 'src': rng.choice(used), 'shared': rng.random() < 0.3, 'pre': rand_pre(rng), 'ids': rng.choice(['int', 'int', 'str', 'blank'])})
     return cases
 
 
@@ -100,16 +105,18 @@ def use_subnet(net, case):
         sn = sorted(sub.NODES)
         if len(sn) >= 2:
             sub.shortest_distance(sn[0], sn[-1]); sub.shortest_path(sn[-1], sn[0])
+    elif pre[0] == 'prep':
+        net.prepare(cut=pre[2], verbose=False)      # the network's own precomputation (possibly with a finite radius): later searches are searches, not look-ups
     else:
         net.all_shortest_distances(cut=pre[2])
 
 
 def rand_pre(rng):
-    return rng.choice([None, None, None, ['sub', rng.randrange(12), rng.choice([1, 3, 8, 1e300])], ['all', 0, rng.choice([2, 8, 1e300])]])
+    return rng.choice([None, None, None, ['sub', rng.randrange(12), rng.choice([1, 3, 8, 1e300])], ['all', 0, rng.choice([2, 8, 1e300])], ['prep', 0, rng.choice([0, 1, 3, 1e300])]])
 
 
 def run_dist(case):
-    net = build_net(case['edges'])
+    net = build_net(case['edges'], case.get('ids', 'int'))
     use_subnet(net, case)
     res = {}
     reg = {} if case.get('shared') else None      # the optional output dictionary, reused across successive calls as the API allows
@@ -185,12 +192,12 @@ def gen_table(rng, n, tier):
     for k in range(n):
         g = gen_graph(rng, small=(k % 2 == 0))
         cut = rng.choice([0, 1, 2, 3, 5, 8, 13, 0.5, 2.5, 1e300])
-        cases.append({'edges': g, 'cut': cut, 'pre': rand_pre(rng)})
+        cases.append({'edges': g, 'cut': cut, 'pre': rand_pre(rng), 'ids': rng.choice(['int', 'int', 'str', 'blank'])})
     return cases
 
 
 def run_table(case):
-    net = build_net(case['edges'])
+    net = build_net(case['edges'], case.get('ids', 'int'))
     use_subnet(net, case)
     d = net.all_shortest_distances(cut=case['cut'])
     net.DISTANCES = d
